@@ -17,6 +17,22 @@ type c03Shape struct {
 	Label string
 	Spec  TransferSpec
 	Stray int64
+	Pre   []Op // operations applied before (non-initial start state); such shapes get single-fault plans only
+}
+
+func (sh c03Shape) start(w *World) (sdk.Context, error) {
+	ctx := Branch(w.Ctx)
+	for _, op := range sh.Pre {
+		if r := w.Apply(ctx, op); !r.Succeeded() {
+			return ctx, fmt.Errorf("start-state op %s failed", op.Label)
+		}
+	}
+	if sh.Stray > 0 {
+		if err := w.Deposit(ctx, w.Orb, sh.Spec.Base, sh.Stray); err != nil {
+			return ctx, err
+		}
+	}
+	return ctx, nil
 }
 
 func (w *World) c03Shapes(full bool) []c03Shape {
@@ -31,7 +47,7 @@ func (w *World) c03Shapes(full bool) []c03Shape {
 				if !full && ((fi == 2 && stray == 0) || (fi == 0 && stray == 5)) {
 					continue
 				}
-				out = append(out, c03Shape{fmt.Sprintf("%s/fees%d/stray%d", f, fi, stray), TransferSpec{"channel-0", denomUSDC, "10000", orb, f, fe}, stray})
+				out = append(out, c03Shape{Label: fmt.Sprintf("%s/fees%d/stray%d", f, fi, stray), Spec: TransferSpec{"channel-0", denomUSDC, "10000", orb, f, fe}, Stray: stray})
 			}
 		}
 	}
@@ -41,11 +57,30 @@ func (w *World) c03Shapes(full bool) []c03Shape {
 		f1 := f
 		f1.SwapFirst = true
 		f1.Tag = "swap+" + f.String()
-		out = append(out, c03Shape{fmt.Sprintf("[SWAP,FEE]->%s/stray0", f), TransferSpec{"channel-0", denomOTH, "10000", orb, f1, []FeeSpec{{To: w.Fee1.String(), Bps: 100}}}, 0})
+		out = append(out, c03Shape{Label: fmt.Sprintf("[SWAP,FEE]->%s/stray0", f), Spec: TransferSpec{"channel-0", denomOTH, "10000", orb, f1, []FeeSpec{{To: w.Fee1.String(), Bps: 100}}}, Stray: 0})
+	}
+	if full {
+		// non-initial start states (single faults only): neutral admin operations, deposits in other denoms, prior transfers
+		pres := []Op{w.OpPauseProtocol("PROTOCOL_IBC"), w.OpPauseCC("PROTOCOL_CCTP", "7"), w.OpUpdateParams(8), w.OpDeposit(w.Orb, denomOTH, 3), w.OpDeposit(w.Orb, denomIGP, 9),
+			w.OpRecv("prior cctp", TransferSpec{"channel-0", denomUSDC, "1000", orb, w.FwdCCTP(0), nil}.Pkt()),
+			w.OpRecv("prior internal+fee", TransferSpec{"channel-0", denomUSDC, "10000", orb, w.FwdInternal(w.Bob), []FeeSpec{{To: w.Fee1.String(), Bps: 100}}}.Pkt()),
+			w.OpPauseAction("ACTION_SWAP")}
+		base := append([]c03Shape{}, out...)
+		for _, sh := range base {
+			for _, pre := range pres {
+				if sh.usesSwap() && pre.Msg != nil && pre.Msg.RPC == "PauseAction" {
+					continue
+				}
+				n := sh
+				n.Label = sh.Label + " after " + pre.Label
+				n.Pre = []Op{pre}
+				out = append(out, n)
+			}
+		}
 	}
 	f2 := w.FwdInternal(w.Bob)
 	f2.Tag = "fee+swap+internal"
-	out = append(out, c03Shape{"[FEE,SWAP]->internal/stray0", TransferSpec{"channel-0", denomOTH, "10000", orb, f2, []FeeSpec{{To: w.Fee1.String(), Bps: 100}}}, 0})
+	out = append(out, c03Shape{Label: "[FEE,SWAP]->internal/stray0", Spec: TransferSpec{"channel-0", denomOTH, "10000", orb, f2, []FeeSpec{{To: w.Fee1.String(), Bps: 100}}}, Stray: 0})
 	return out
 }
 
@@ -106,12 +141,10 @@ func checkC03(tier string) *Report {
 	{
 		w, in := worlds[0], instrs[0]
 		for _, sh := range shapes {
-			ctx := Branch(w.Ctx)
-			if sh.Stray > 0 {
-				if err := w.Deposit(ctx, w.Orb, sh.Spec.Base, sh.Stray); err != nil {
-					rep.HarnessError("deposit: %v", err)
-					return rep
-				}
+			ctx, err := sh.start(w)
+			if err != nil {
+				rep.HarnessError("start state of %s: %v", sh.Label, err)
+				return rep
 			}
 			keyBefore := w.StateKey(ctx)
 			// conformance of the replica: same packet on the app's own stack
@@ -148,6 +181,9 @@ func checkC03(tier string) *Report {
 				}
 			}
 			for i := range sites {
+				if len(sh.Pre) > 0 {
+					break
+				}
 				for j := i + 1; j < len(sites); j++ {
 					modes := []string{""}
 					if sites[i] == "inner.OnRecvPacket" || sites[j] == "inner.OnRecvPacket" {
@@ -181,10 +217,7 @@ func checkC03(tier string) *Report {
 		in := byWorld[w]
 		jb := jobs[ji]
 		sh := jb.shape
-		ctx := Branch(w.Ctx)
-		if sh.Stray > 0 {
-			_ = w.Deposit(ctx, w.Orb, sh.Spec.Base, sh.Stray)
-		}
+		ctx, _ := sh.start(w)
 		// fault-free post-state of the same shape on the same state (for the success clause)
 		ref := Branch(ctx)
 		in.Recv(ref, sh.pkt(), nil, "")
